@@ -450,6 +450,7 @@ def run(ctx):
     fixed_width_record_scenarios(ctx, home)
     union_case_scenarios(ctx, home)
     parameter_name_scenarios(ctx, home)
+    alias_dropped_scenarios(ctx, home)
     imported_record_scenario(ctx, home)
     numeric_conversion_scenario(ctx, home)
     cxx.prune_cache()
@@ -567,6 +568,25 @@ def union_case_scenarios(ctx, home):
         old = mk(*o, [], "v0")
         new = mk(*n, [("v0", old)], "v1")
         _evolve_pair(ctx, home, "union-cases", "types added to / removed from unions", name, old, new, value_sets=8)
+
+
+def alias_dropped_scenarios(ctx, home):
+    """in one step a record changes in a documented compatible way (gains an optional field, loses a field, a field is widened) AND the alias through
+    which the protocol referred to it disappears - dropped (the steps name the record directly) or renamed: the old alias has no counterpart of its
+    own, its base definition changed. Also the other way round (an alias is introduced for a record that changes in the same step)."""
+    i32, st, f32t, f64t = P("int32"), P("string"), P("float32"), P("float64")
+    changes = {"field-added": ([("a", i32), ("unit", st)], [("a", i32), ("unit", st), ("extra", Opt(st))]),
+               "field-removed": ([("a", i32), ("unit", st), ("old", Opt(i32))], [("a", i32), ("unit", st)]),
+               "field-widened": ([("a", i32), ("gain", f32t)], [("a", i32), ("gain", f64t)])}
+
+    def mk(fields, alias, versions, d):
+        ref = N(alias) if alias else N("Reading")
+        defs = [Rec("Reading", fields)] + ([Al(alias, N("Reading"))] if alias else [])
+        return Pkg("Evo", defs + [Proto("Evo", [("one", ref), ("many", S(ref)), ("vec", V(ref)), ("maybe", Opt(ref)), ("end", i32)])], [], versions, d)
+    for cname, (fo, fn) in changes.items():
+        for aname, (ao, an) in {"alias-dropped": ("Item", None), "alias-renamed": ("Item", "Entry"), "alias-introduced": (None, "Item"), "alias-kept": ("Item", "Item")}.items():
+            old = mk(fo, ao, [], "v0")
+            _evolve_pair(ctx, home, "alias-and-base", "a record changed and the alias that names it dropped / renamed / introduced in the same step", "%s-%s" % (aname, cname), old, mk(fn, an, [("v0", old)], "v1"))
 
 
 def parameter_name_scenarios(ctx, home):
